@@ -19,11 +19,52 @@ type FlowFact struct{ Func, What string }
 // operator, and (2) every method called on a field named `abort` (x.abort.Load(), x.abort.Store(..)), each attributed
 // to the enclosing top-level function (function literals count for the function that contains them).
 func FlowFacts(dir string) (pcWriters, abortUsers []FlowFact, err error) {
+	pcWriters, abortUsers, _, err = FlowFacts3(dir)
+	return
+}
+
+// FlowFacts3 additionally returns (3) every use of a package-level variable declared in constants.go (the shared
+// 256-bit values) in a position where it could be modified: as the receiver of a method call (uint256 methods work in
+// place on their receiver), as the left-hand side of an assignment, with its address taken, dereferenced on the left
+// of an assignment, or given a second name (assigned to a variable or returned), after which the alias could be modified.  Passing one as an ordinary (read-only) argument is not listed.
+func FlowFacts3(dir string) (pcWriters, abortUsers, constWrites []FlowFact, err error) {
 	fset := token.NewFileSet()
 	ents, err := os.ReadDir(dir)
 	if err != nil {
-		return nil, nil, err
+		return nil, nil, nil, err
 	}
+	consts := map[string]bool{}
+	if src, e := os.ReadFile(filepath.Join(dir, "constants.go")); e == nil {
+		if f, e := parser.ParseFile(fset, "constants.go", src, parser.SkipObjectResolution); e == nil {
+			for _, d := range f.Decls {
+				if gd, ok := d.(*ast.GenDecl); ok && gd.Tok == token.VAR {
+					for _, sp := range gd.Specs {
+						if vs, ok := sp.(*ast.ValueSpec); ok {
+							for _, n := range vs.Names {
+								consts[n.Name] = true
+							}
+						}
+					}
+				}
+			}
+		}
+	}
+	isConst := func(e ast.Expr) (string, bool) {
+		for {
+			switch x := e.(type) {
+			case *ast.ParenExpr:
+				e = x.X
+				continue
+			case *ast.StarExpr:
+				e = x.X
+				continue
+			case *ast.Ident:
+				return x.Name, consts[x.Name]
+			}
+			return "", false
+		}
+	}
+	seenC := map[FlowFact]bool{}
 	isPC := func(e ast.Expr) bool {
 		if st, ok := e.(*ast.StarExpr); ok {
 			e = st.X
@@ -47,11 +88,11 @@ func FlowFacts(dir string) (pcWriters, abortUsers []FlowFact, err error) {
 		}
 		src, err := os.ReadFile(filepath.Join(dir, name))
 		if err != nil {
-			return nil, nil, err
+			return nil, nil, nil, err
 		}
 		f, err := parser.ParseFile(fset, name, src, parser.SkipObjectResolution)
 		if err != nil {
-			return nil, nil, err
+			return nil, nil, nil, err
 		}
 		for _, d := range f.Decls {
 			fd, ok := d.(*ast.FuncDecl)
@@ -66,6 +107,32 @@ func FlowFacts(dir string) (pcWriters, abortUsers []FlowFact, err error) {
 						if isPC(l) {
 							seenW[FlowFact{fn, x.Tok.String()}] = true
 						}
+						if c, ok := isConst(l); ok && x.Tok != token.DEFINE {
+							seenC[FlowFact{fn, c + " " + x.Tok.String()}] = true
+						}
+					}
+					for _, r := range x.Rhs { // a second name for the same pointer: `mask := storageMask`
+						if c, ok := isConst(r); ok {
+							seenC[FlowFact{fn, "alias " + c}] = true
+						}
+					}
+				case *ast.ValueSpec:
+					for _, r := range x.Values {
+						if c, ok := isConst(r); ok {
+							seenC[FlowFact{fn, "alias " + c}] = true
+						}
+					}
+				case *ast.ReturnStmt:
+					for _, r := range x.Results {
+						if c, ok := isConst(r); ok {
+							seenC[FlowFact{fn, "return " + c}] = true
+						}
+					}
+				case *ast.UnaryExpr:
+					if x.Op == token.AND {
+						if c, ok := isConst(x.X); ok {
+							seenC[FlowFact{fn, "&" + c}] = true
+						}
 					}
 				case *ast.IncDecStmt:
 					if isPC(x.X) {
@@ -73,6 +140,14 @@ func FlowFacts(dir string) (pcWriters, abortUsers []FlowFact, err error) {
 					}
 				case *ast.CallExpr:
 					if sel, ok := x.Fun.(*ast.SelectorExpr); ok {
+						if c, ok := isConst(sel.X); ok {
+							switch sel.Sel.Name {
+							case "Eq", "Lt", "Gt", "Cmp", "IsZero", "IsUint64", "Uint64", "Bytes", "Bytes32", "Bytes20", "String", "Hex", "Sign", "BitLen", "ToBig", "Clone", "Slt", "Sgt", "LtUint64", "GtUint64", "Uint64WithOverflow":
+								// read-only methods of uint256.Int
+							default:
+								seenC[FlowFact{fn, c + "." + sel.Sel.Name}] = true
+							}
+						}
 						if inner, ok := sel.X.(*ast.SelectorExpr); ok && inner.Sel.Name == "abort" {
 							what := sel.Sel.Name
 							if len(x.Args) == 1 {
@@ -96,6 +171,9 @@ func FlowFacts(dir string) (pcWriters, abortUsers []FlowFact, err error) {
 	for k := range seenA {
 		abortUsers = append(abortUsers, k)
 	}
+	for k := range seenC {
+		constWrites = append(constWrites, k)
+	}
 	less := func(l []FlowFact) func(i, j int) bool {
 		return func(i, j int) bool {
 			if l[i].Func != l[j].Func {
@@ -106,5 +184,6 @@ func FlowFacts(dir string) (pcWriters, abortUsers []FlowFact, err error) {
 	}
 	sort.Slice(pcWriters, less(pcWriters))
 	sort.Slice(abortUsers, less(abortUsers))
-	return pcWriters, abortUsers, nil
+	sort.Slice(constWrites, less(constWrites))
+	return pcWriters, abortUsers, constWrites, nil
 }
